@@ -121,4 +121,12 @@ def v0OrderBytes : List Nat → List Nat
   | [c0, c1, c2, c3] => v0Group c0 c1 c2 c3 0
   | c0 :: c1 :: c2 :: c3 :: c4 :: rest => v0Group c0 c1 c2 c3 c4 ++ v0OrderBytes rest
 
+
+/-- a version-0 pack of a molecule: version byte 0, the same header/atom/connection/cis-trans fields, old order block -/
+def layoutBytesV0 (m : PMol) : Option (List Nat) := do
+  let af ← atomsFields m.atoms
+  let cf ← ctFields m.terminals (bondsInOrder [] m.atoms)
+  pure (fieldsBytes ([(8, 0), (12, m.atoms.length), (12, stereoBondCount m.atoms)] ++ af ++ connFields m.atoms) ++
+        v0OrderBytes ((bondsInOrder [] m.atoms).map fun p => p.2.order - 1) ++ fieldsBytes cf)
+
 end ChythonModel.Spec.PackLayout
